@@ -18,7 +18,7 @@ pub fn def() -> CheckDef {
         level: "exploration",
         assumptions: &["monotone simulated clock", "for `on: step` the README's reading (fires when a step completes) is taken", "a task that is skipped by its own `if` registers no hooks and counts as neither created nor updated", "no storage errors are injected"],
         probes: &["probe.parallel", "probe.sequence", "probe.block", "probe.empty_list", "probe.nested_block", "probe.hooks_fired", "probe.push", "probe.list_len_ge_3"],
-        quick_cases: 2500,
+        quick_cases: 3000,
         no_shrink: &[],
     }
 }
